@@ -18,10 +18,10 @@ import (
 type XOp struct {
 	K      string `json:"k"` // call release nop
 	Key    string `json:"key,omitempty"`
-	Fn     int    `json:"fn,omitempty"`     // function id (unique per call op)
-	Mode   string `json:"mode,omitempty"`   // early | late | never : when the work function resolves
-	Held   bool   `json:"held,omitempty"`   // the work function blocks until released
-	Start  bool   `json:"start,omitempty"`  // start-style call (no outcome)
+	Fn     int    `json:"fn,omitempty"`    // function id (unique per call op)
+	Mode   string `json:"mode,omitempty"`  // early | late | never : when the work function resolves
+	Held   bool   `json:"held,omitempty"`  // the work function blocks until released
+	Start  bool   `json:"start,omitempty"` // start-style call (no outcome)
 	WaitUs int    `json:"wait_us,omitempty"`
 	N      int    `json:"n,omitempty"`
 }
